@@ -185,3 +185,46 @@ VP_HARNESS(h_misc_group_args)
   }
 #endif
 }
+
+/* ---- sibling-list surgery used when a level is merged away (restrict / filter keep_structure) ------------------------- */
+/* two well-formed doubly linked lists of NA and NB objects (ranks 0.., prev/next consistent, each with its own parent) */
+#ifndef NA
+#define NA 2
+#endif
+#ifndef NB
+#define NB 2
+#endif
+#ifndef OPL
+#define OPL 0          /* 0 prepend_siblings_list, 1 append_siblings_list */
+#endif
+static hwloc_obj_t mk_list(unsigned n, hwloc_obj_t parent, hwloc_obj_t *all)
+{
+  hwloc_obj_t first = NULL, prev = NULL;
+  for (unsigned i = 0; i < n; i++) {
+    hwloc_obj_t o = malloc(sizeof *o); VP_NONNULL(o); static const struct hwloc_obj oz; *o = oz;
+    o->type = HWLOC_OBJ_MISC; o->parent = parent; o->sibling_rank = i; o->prev_sibling = prev; if (prev) prev->next_sibling = o; else first = o; prev = o; all[i] = o;
+  }
+  return first;
+}
+VP_HARNESS(h_siblings)
+{
+  struct hwloc_obj PA, PB; hwloc_obj_t a[4], b[4];
+  hwloc_obj_t la = mk_list(NA, &PA, a), lb = mk_list(NB, &PB, b);
+  hwloc_obj_t first = la;                       /* the list that stays: children of PA */
+#if OPL == 0
+  prepend_siblings_list(&first, lb, &PA);       /* documented precondition: the new list is non-NULL (NB >= 1) */
+  hwloc_obj_t expect[8]; unsigned ne = 0; for (unsigned i = 0; i < NB; i++) expect[ne++] = b[i]; for (unsigned i = 0; i < NA; i++) expect[ne++] = a[i];
+#else
+  append_siblings_list(&first, lb, &PA);
+  hwloc_obj_t expect[8]; unsigned ne = 0; for (unsigned i = 0; i < NA; i++) expect[ne++] = a[i]; for (unsigned i = 0; i < NB; i++) expect[ne++] = b[i];
+#endif
+  unsigned k = 0; hwloc_obj_t prev = NULL;
+  for (hwloc_obj_t o = first; o && k < 8; prev = o, o = o->next_sibling, k++) {
+    VP_CHECK(k < ne && o == expect[k], "siblings: the merged list is the two lists in order");
+    VP_CHECK(o->prev_sibling == prev, "siblings: prev_sibling is the predecessor in the merged list");
+    VP_CHECK(o->sibling_rank == k, "siblings: sibling_rank is the position in the merged list");
+    VP_CHECK(o->parent == &PA, "siblings: every element belongs to the new parent");
+  }
+  VP_CHECK(k == ne, "siblings: no element lost");
+  VP_WITNESS("lists merged");
+}
